@@ -215,10 +215,6 @@ func (e *Encoder) EncodeMap(mes []*MapEntryEncoder) error {
 	//
 	// https://tools.ietf.org/html/rfc7049#section-2.1
 
-	if err := e.encodeMapHeader(len(mes)); err != nil {
-		return err
-	}
-
 	// Map keys must be sorted. Here copy all the keys into a slice for sorting.
 	// This is not very efficient, but it is expected that the number of keys is
 	// not so big in signedexchange usage.
@@ -228,13 +224,19 @@ func (e *Encoder) EncodeMap(mes []*MapEntryEncoder) error {
 		return bytes.Compare(entries[i].KeyBytes(), entries[j].KeyBytes()) < 0
 	})
 
-	var lastKeyBytes []byte
-	for _, entry := range entries {
-		if lastKeyBytes != nil && bytes.Equal(lastKeyBytes, entry.KeyBytes()) {
+	// Refuse a map with duplicate keys before anything is written: a refused
+	// call must not leave a map header and some of the entries in the stream.
+	for i := 1; i < len(entries); i++ {
+		if bytes.Equal(entries[i-1].KeyBytes(), entries[i].KeyBytes()) {
 			return ErrDuplicatedKey
 		}
-		lastKeyBytes = entry.KeyBytes()
+	}
 
+	if err := e.encodeMapHeader(len(mes)); err != nil {
+		return err
+	}
+
+	for _, entry := range entries {
 		if _, err := io.Copy(e.w, &entry.keyBuf); err != nil {
 			return err
 		}
